@@ -452,7 +452,19 @@ func (c *Ctx) c10Views() {
 			continue
 		}
 		ok := len(paths) > 0
+		nJudged := 0
 		for _, p := range paths {
+			// guard paths for the impossible zero error value (no entry attached) are not judged
+			entryNil := false
+			for _, ev := range p.Events {
+				if ev.Kind == pw.EvFieldRead && ev.Field != nil && fname(ev.Field) == "entry" && nilTri(p, ev.Value) == triTrue {
+					entryNil = true
+				}
+			}
+			if entryNil {
+				continue
+			}
+			nJudged++
 			v := p.Ret[0]
 			if !(v.Kind == pw.KCall && v.Ev.Role == "Repo:tsTime" && len(v.Ev.Args) == 1 && v.Ev.Args[0].Kind == pw.KField && v.Ev.Args[0].Field != nil && fname(v.Ev.Args[0].Field) == "E") {
 				ok = false
@@ -464,7 +476,7 @@ func (c *Ctx) c10Views() {
 				}
 			}
 		}
-		if ok {
+		if ok && nJudged > 0 {
 			r.OK("R10.5", acc, "tsTime(entry.E)")
 		} else {
 			r.Bad("R10.5", acc, "accessor", "-", acc+" must be tsTime(E) of the entry", nil)
